@@ -86,6 +86,13 @@ def base_case(
         kw = {"sleep": rng.choice([0, 0.5, 2.0])}
         case["suspenders"]["s0"] = {"cls": "SuspendBoolHigh", "signal": "sigS", "kwargs": kw}
         case["script"].append({"do": "install_suspender", "sus": "s0"})
+        # ... and in some worlds a second one on a signal of its own: suspensions on top of each other (drawn from a
+        # stream of its own so that the rest of the case does not depend on it)
+        rng2 = gen.rng_for(pid, seed, "second-suspender")
+        if rng2.random() < 0.3:
+            specs["sigT"] = {"kind": "signal", "initial": 0}
+            case["suspenders"]["s1"] = {"cls": "SuspendBoolHigh", "signal": "sigT", "kwargs": {"sleep": rng2.choice([0, 0.5, 2.0])}}
+            case["script"].append({"do": "install_suspender", "sus": "s1"})
     main = {"do": "call", "plan": body, "main": True}
     if callbacks:
         case["callbacks"] = {"cbT": {}, "cbP": {}, "cbK": {}}
@@ -178,7 +185,7 @@ def add_device_faults(rng, case, dry_view, k=1, kinds=("raise", "status_fail")):
     cands = []
     for (dev, m), n in sorted(seen.items()):
         kind = case["devices"][dev]["kind"]
-        if dev == "sigS":
+        if dev in ("sigS", "sigT"):
             continue
         if m in FAULT_METHODS.get(kind, []):
             cands.append((dev, m, n))
@@ -223,6 +230,19 @@ def interruption_cases(pid, seed, tier, *, K=(10, 16), kinds=None, dev_faults=0.
         kinds = kinds + ["trip", "trip"]
     if not has_sus:
         kinds = [k for k in kinds if k != "trip"] or ["pause"]
+    rng2 = gen.rng_for(pid, seed, "second-suspender-trips")
+    two = "s1" in base["suspenders"]
+
+    def trip_args(_rng):
+        a = globals()["trip_args"](_rng)
+        if two and rng2.random() < 0.5:
+            a["signal"] = "sigT"
+        if two and rng2.random() < 0.2:
+            # the signal flaps (never twice in the same instant: one device thread delivers its updates in turn)
+            a["after"] = a["after"] or 0.05
+            a["then"] = [[rng2.choice([0.05, 0.1, 0.4, 1.0]), 1], [rng2.choice([0.05, 0.2, 1.0]), 0]]
+        return a
+
     for j in range(kk):
         c = copy.deepcopy(base)
         c["variant"] = j
@@ -416,7 +436,7 @@ def engine_side_cases(rng, base, dv, k=2):
     close_run, pause bookkeeping) at an occurrence the fault-free run reached."""
     seen = {}
     for e in dv.of("dev"):
-        if "occ" in e.d and e.d["dev"] != "sigS":
+        if "occ" in e.d and e.d["dev"] not in ("sigS", "sigT"):
             seen[(e.d["dev"], e.d["method"])] = max(seen.get((e.d["dev"], e.d["method"]), 0), e.d["occ"] + 1)
     eng = [(d, m, n) for (d, m), n in sorted(seen.items()) if m in ENGINE_SIDE and m in FAULT_METHODS.get(base["devices"][d]["kind"], [])]
     for d, m, n in rng.sample(eng, min(k, len(eng))):
